@@ -645,7 +645,7 @@ func explore(c *vlib.Ctx) {
 func TestCheck(t *testing.T) {
 	vlib.Main(t, &vlib.Check{
 		ID: "C11", Level: "exploration",
-		Rule: "family strings: for every unordered pair of the components {measurement, tag key, tag value, field key, string field value, second tag key} both components range over all strings over Σ={a,space,comma,=,\",\\,é,0x01} of length 1–2 (thorough: one of the two up to length 3), the other components fixed (point has 2 tags, 2 fields); family values: 19 float bit patterns (4 rejected: ±Inf/NaN) + 11 int64 + 7 uint64 + 2 bool + 10 strings × 7 timestamps {Min,−1,0,1,Max,Min−1,Max+1 in units of the precision} × precisions {ns,us,ms,s} × 2 companion fields; only points models.NewPoint accepts are round-tripped through String/AppendString→ParsePointsWithPrecision(ns), PrecisionString(p)→ParsePointsWithPrecision(p), MarshalBinary→NewPointFromBytes, MakeKey→ParseKey/ParseKeyBytes; oracle = equality of name, tags sorted bytewise by key, field name/type/value (Float64bits-exact), UnixNano; non-trivial = every case except the all-'a' string pair (cases distinct by construction)",
+		Rule: "family strings: for every unordered pair of the components {measurement, tag key, tag value, field key, string field value, second tag key} both components range over all strings over Σ={a,space,comma,=,\",\\,é,0x01} of length 1–2 (thorough: one of the two up to length 3), the other components fixed (point has 2 tags, 2 fields); family values: 19 float bit patterns (4 rejected: ±Inf/NaN) + 11 int64 + 7 uint64 + 2 bool + 10 strings × 7 timestamps {Min,−1,0,1,Max,Min−1,Max+1 in units of the precision} × precisions {ns,us,ms,s} × 2 companion fields; NewPoint must accept exactly the reference-valid points (≥1 field, non-empty field keys, finite floats, time in [MinNanoTime,MaxNanoTime]); accepted points are round-tripped through String/AppendString→ParsePointsWithPrecision(ns), PrecisionString(p)→ParsePointsWithPrecision(p) for every p∈{us,ms,s} dividing the timestamp (plus: rendered timestamp = ns/unit, and a reference-rendered line at precision p parses to the same ns), MarshalBinary→NewPointFromBytes, MakeKey→ParseKey/ParseKeyBytes; oracle = equality of name, tags sorted bytewise by key, field name/type/value (Float64bits-exact), UnixNano; non-trivial = every case except the all-'a' string pair (cases distinct by construction)",
 		Assumptions: []string{
 			"a 'valid point' is one models.NewPoint accepts with non-empty measurement, tag keys, tag values and field keys",
 			"strings longer than 3 symbols and bytes outside Σ (e.g. newline, '#', tab, NUL, invalid UTF-8) are not covered",
